@@ -317,6 +317,7 @@ Definition apply_doc (a : action) (s : state) : res (state * out) :=
           if negb (colvals_ok rows cols) || match rows with [] => true | _ => false end then Err E_domain
           else if negb (all_in rows (t_rows T)) then Err E_no_row
           else
+            (* all undo values are collected, and the undo action appended, before any cell is set (repo commit 6f648c6) *)
             do undo_values <- old_values (t_cols T) rows cols;
             do cs <- set_columns (t_cols T) rows cols;
             Ok (put_table s t (mkTab (t_id T) (t_rows T) cs), ([BulkUpdateRecord t rows undo_values], []))
@@ -655,7 +656,9 @@ Definition changes_to_actions (sm : summary) (t c : name) (cd : coldelta)
                          end in
           if sum_is_created sm t' c' && negb defunct then Ok (stored', undo)
           else
-            let rows_before := filter_out_new_rows sm t' full_rows in
+            (* delta_key: the presence maps are looked up under the LATEST name t (the defunct name of a removed
+               table), not under its root name (repo commit b239974) *)
+            let rows_before := filter_out_new_rows sm t full_rows in
             let preserved := if defunct then [] else filter_out_gone_rows sm t' rows_before in
             let defunct_rows := filter (fun r => negb (zmem r preserved)) rows_before in
             let undo1 := match preserved with
